@@ -847,13 +847,14 @@ impl core::future::Future for Spin {
     }
 }
 
-/// The per-poll budget: one held child that keeps waking itself. The call
-/// must return after at most BUDGET child polls, and when it stops early it
-/// must have woken its task (C13), which is then the only reason for the wake (C14).
-pub fn budget() {
+/// The per-poll budget: one held child that wakes itself on every poll until
+/// its `stop`-th poll (`stop` is concrete per harness: the 61 iterations then
+/// fold to constants). The call must return after at most BUDGET child polls,
+/// and when it stops early it must have woken its task (C13); the task is woken
+/// only if a child waker was invoked (C14).
+pub fn budget(stop: usize) {
     gh::reset();
     let gh = g();
-    let stop = nd::below(70) as usize;
     let t = nd::below(2) as usize;
     let w = gh::task_waker(t);
     let q = [QEntry { slot: 0, inflight: false }; MAXS];
@@ -864,6 +865,7 @@ pub fn budget() {
     vassert!(matches!(r, Poll::Pending), "C02:a pending child produced an item");
     vassert!(gh.total_child_polls <= BUDGET, "C13:more child polls in one call than the budget");
     let s = snap(&mut f, 1, t);
+    vassert!(gh.task_wakes[1 - t] == 0, "C01:a task waker that was never registered was invoked");
     if stop > BUDGET {
         // stopped early, the child is still queued: the task must have been told
         vassert!(gh.total_child_polls == BUDGET, "C13:poll gave up before its budget was used");
@@ -873,8 +875,10 @@ pub fn budget() {
     } else {
         vassert!(gh.total_child_polls == if stop == 0 { 1 } else { stop }, "C12:child polled more often than it was notified");
         vassert!(s.qlen == 0, "C14:ready queue not drained");
-        vassert!(gh.task_wakes[t] == if stop > 1 { 1 } else { 0 }, "C14:task woken without reason (or not woken by the self-wakes)");
-        vcover!(stop == BUDGET, "cover:exactly_budget");
+        // woken only as a consequence of a child-waker invocation
+        vassert!(gh.child_wakes > 0 || gh.task_wakes[t] == 0, "C14:task woken although no child waker was invoked");
+        vassert!(gh.child_wakes == 0 || gh.task_wakes[t] >= 1, "C01:self-waking child did not notify the task");
+        vcover!(true, "cover:within_budget");
     }
     core::mem::forget(f);
 }
